@@ -41,6 +41,9 @@ CONFIG = dict(
     theorems=[
         "Rbgp.Monitor.Props.C18_full_holds_partial",
         "Rbgp.Monitor.Props.C18_full_fails",
+        "Rbgp.Monitor.Props.channel_subscription_ok",
+        "Rbgp.Monitor.Props.mrt_dump_ok",
+        "Rbgp.Monitor.Props.retained_key_invariant",
         "Rbgp.Monitor.Props.check_run_ok",
         "Rbgp.Monitor.Props.bmp_peerdown_after_peerup",
         "Rbgp.Monitor.Props.watch_peerdown_after_peerup",
